@@ -85,7 +85,7 @@ Print Assumptions C15_unknown_key_dropped_config.
 
 (* Ill-typed values.  Project file: a bool option that is not a single true/false, an int option
    that int() rejects, and a key/value option without its separator are rejected with a message
-   naming the option. *)
+   naming the option (list, path and string options accept every text). *)
 Theorem C15_ill_typed_md_bool_named : forall key (vals : list str),
   (match vals with
    | [x] => negb (seqb (lower x) (s "true")) && negb (seqb (lower x) (s "false"))
@@ -105,16 +105,73 @@ Theorem C15_ill_typed_md_dict_named : forall key sep x,
 Proof. exact ill_typed_md_dict. Qed.
 Print Assumptions C15_ill_typed_md_dict_named.
 
-(* The full demand "rejected with a message naming the option" is FALSE for fpm.toml and for
-   --config, whose values are not checked against the declared type. *)
-Definition C15_ill_typed_statement_toml : Prop := ill_typed_toml_statement.
-Definition C15_ill_typed_statement_config : Prop := ill_typed_config_statement.
-Theorem C15_ill_typed_refuted_toml : ~ C15_ill_typed_statement_toml.
-Proof. exact ill_typed_refuted_toml. Qed.
-Print Assumptions C15_ill_typed_refuted_toml.
-Theorem C15_ill_typed_refuted_config : ~ C15_ill_typed_statement_config.
-Proof. exact ill_typed_refuted_config. Qed.
-Print Assumptions C15_ill_typed_refuted_config.
+(* fpm.toml and --config: a bool / int / str option (Optional included) given a value that is
+   neither of the declared type nor a text that converts is rejected with a ValueError whose message
+   names the option -- by the loop of ProjectSettings.__post_init__, whatever the command line and
+   the directory.  [scalar_rejects]: a text that is not true/false for a flag, a text that int()
+   rejects for a number, any non-text value of another type (graph = 3, max_frontpage_items = true,
+   project = 5, author = ["a"], a float, a date). *)
+Theorem C15_ill_typed_toml_named : forall i k t X,
+  field_ty k = Some t -> settable k = true -> is_scalar_ty t = true -> scalar_rejects t X = true ->
+  effective (with_toml i [(k, X)]) = Err (s "ValueError") k true.
+Proof. exact ill_typed_toml_scalar. Qed.
+Print Assumptions C15_ill_typed_toml_named.
+Theorem C15_ill_typed_config_named : forall i k t X,
+  field_ty k = Some t -> settable k = true -> is_scalar_ty t = true -> scalar_rejects t X = true ->
+  effective (with_config i [(k, X)]) = Err (s "ValueError") k true.
+Proof. exact ill_typed_config_scalar. Qed.
+Print Assumptions C15_ill_typed_config_named.
+
+(* A flag or number written as the same text in the three formats ("graph: TRUE", graph = "TRUE",
+   --config "graph = 'TRUE'"; max_frontpage_items = "4") gives the same effective configuration --
+   or the same rejection naming the option when the text does not convert: fpm.toml and --config
+   convert it exactly as the project file does. *)
+Theorem C15_text_values_agree : forall i k t x,
+  field_ty k = Some t -> settable k = true -> is_conv_ty t = true -> piece x = true ->
+  effective (with_md i (md_block k [x])) = effective (with_toml i [(k, PStr x)]) /\
+  effective (with_toml i [(k, PStr x)]) = effective (with_config i [(k, PStr x)]).
+Proof. exact text_values_agree. Qed.
+Print Assumptions C15_text_values_agree.
+
+(* fpm.toml and --config agree on every table of raw values of distinct options, well typed or not. *)
+Theorem C15_toml_config_agree_raw : forall i kv,
+  forallb (fun p => match field_ty (fst p) with Some _ => true | None => false end) kv = true ->
+  nodup_strs (map fst kv) = true ->
+  effective (with_toml i kv) = effective (with_config i kv).
+Proof. exact toml_config_agree_raw. Qed.
+Print Assumptions C15_toml_config_agree_raw.
+
+(* The full demand -- whatever the option, a value that is not acceptable for its declared type
+   (not of the type as TOML writes it, not a flag / number text that converts) is rejected with a
+   message naming the option -- HOLDS for every bool / int / str option ... *)
+Definition C15_ill_typed_statement : Prop := ill_typed_statement.
+Theorem C15_ill_typed_scalar_full : forall i k t X,
+  field_ty k = Some t -> settable k = true -> is_scalar_ty t = true -> X <> PNone -> acceptable t X = false ->
+  effective (with_toml i [(k, X)]) = Err (s "ValueError") k true /\
+  effective (with_config i [(k, X)]) = Err (s "ValueError") k true.
+Proof. exact ill_typed_scalar_full. Qed.
+Print Assumptions C15_ill_typed_scalar_full.
+(* ... and is FALSE for the list, key/value-table, file-type and path options, which the loop does
+   not look at (open finding nonscalar-values-unchecked): exclude = 5 becomes the list [5]. *)
+Theorem C15_ill_typed_refuted_nonscalar : ~ C15_ill_typed_statement.
+Proof. exact ill_typed_refuted_nonscalar. Qed.
+Print Assumptions C15_ill_typed_refuted_nonscalar.
+
+(* The witnesses of the two repaired findings (toml-values-unchecked, config-values-unchecked):
+   max_frontpage_items = "4" gives the integer 4, as "max_frontpage_items: 4" does in the project
+   file; graph = "maybe" is rejected and the message names graph, as for "graph: maybe". *)
+Theorem C15_ill_typed_toml_fixed :
+  field_is (effective (with_toml demo_input [(s "max_frontpage_items", PStr (s "4"))])) (s "max_frontpage_items") (PInt 4) = true /\
+  field_is (effective (with_md demo_input [s "max_frontpage_items: 4"])) (s "max_frontpage_items") (PInt 4) = true /\
+  effective (with_toml demo_input [(s "graph", PStr (s "maybe"))]) = Err (s "ValueError") (s "graph") true.
+Proof. exact ill_typed_toml_fixed. Qed.
+Print Assumptions C15_ill_typed_toml_fixed.
+Theorem C15_ill_typed_config_fixed :
+  effective (with_config demo_input [(s "graph", PStr (s "maybe"))]) = Err (s "ValueError") (s "graph") true /\
+  effective (with_md demo_input [s "graph: maybe"]) = Err (s "ValueError") (s "graph") true /\
+  field_is (effective (with_config demo_input [(s "max_frontpage_items", PStr (s "4"))])) (s "max_frontpage_items") (PInt 4) = true.
+Proof. exact ill_typed_config_fixed. Qed.
+Print Assumptions C15_ill_typed_config_fixed.
 
 (* Paths: the working directory enters only through the project directory it designates ... *)
 Theorem C15_paths_relative_to_project : forall i i',
